@@ -6,3 +6,4 @@ import NautilusVerif.Driver.UnionD
 import NautilusVerif.Driver.CoreD
 import NautilusVerif.Driver.CrashD
 import NautilusVerif.Driver.BoundD
+import NautilusVerif.Driver.BufD
